@@ -117,6 +117,17 @@ def judge(ctx, E, a, f, GM, w, lats, hs):
         ctx.le("ge close to the rotating-sphere value GM/(ab)(1 - 3m/2)", abs(ge - GM / (a * b) * (1 - 1.5 * m)), lim, {"ge": ge, "sphere": GM / (a * b) * (1 - 1.5 * m), "f": f}, route=r)
         ctx.le("gp close to the rotating-sphere value GM/a^2 (1 + m)", abs(gp - g0 * (1 + m)), lim, {"gp": gp, "sphere": g0 * (1 + m), "f": f}, route=r)
     r = "ReferenceEllipsoid/normal_gravity"
+    # latitudes given as an array (with and without height): the same values as the scalar evaluations; the caller's array is left alone
+    la_ = np.array([0.0, 90.0, -90.0, 45.0, -45.0] + [float(x) for x in lats])
+    la_in = la_.copy()
+    hh_ = float(hs[len(hs) // 2]) if len(hs) else 0.0
+    outA = call(lambda: (np.asarray(E.normal_gravity(la_in), float), np.asarray(E.normal_gravity(la_in, hh_), float),
+                         np.array([float(E.normal_gravity(float(x))) for x in la_]), np.array([float(E.normal_gravity(float(x), hh_)) for x in la_])))
+    if ctx.returned(outA, clause="no-exception[array of latitudes]", route=r):
+        A0, Ah, S0, Sh = outA.value
+        if ctx.ok("array of latitudes gives one gravity value per latitude", A0.shape == S0.shape and Ah.shape == Sh.shape, {"shape": list(A0.shape)}, route=r):
+            ctx.le("normal_gravity(array of latitudes[, h]) = the scalar evaluations", float(max(np.abs(A0 - S0).max(), np.abs(Ah - Sh).max()) / g0), 1e-15, {"h": hh_, "array": Ah, "scalar": Sh}, route=r)
+        ctx.ok("the caller's latitude array is left as it was", np.array_equal(la_in, la_), {"after": la_in, "before": la_}, route=r)
     for lat in [0.0, 90.0, -90.0, 45.0, -45.0] + list(lats):
         out = call(lambda: (float(E.normal_gravity(lat)), float(E.normal_gravity(-lat)), [float(E.normal_gravity(lat, float(h))) for h in hs]))
         if not ctx.returned(out, route=r):
